@@ -49,9 +49,10 @@ IsName(i) == N(i).c \in NameCats
 TypeRec(c, ops, q) == Rec(c, ops, q, "C++", "", TypenameId)
 XTypeRec(c, ops, lw, cw) == Rec(c, ops, 0, lw, cw, TypenameId)
 
-\* bitwise union on 3-bit qualifier sets
+\* bitwise union on qualifier sets: bits 0..2 are const, volatile, restrict; bits 3 and 4 stand for two extended qualifiers
+\* (the harness maps them to bits 40 and 63 of ipr::Qualifiers, whose representation is as wide as a pointer)
 Bit(x, i) == (x \div (2 ^ i)) % 2
-QOr(a, b) == LET m(i) == IF Bit(a, i) = 1 \/ Bit(b, i) = 1 THEN 2 ^ i ELSE 0 IN m(0) + m(1) + m(2)
+QOr(a, b) == LET m(i) == IF Bit(a, i) = 1 \/ Bit(b, i) = 1 THEN 2 ^ i ELSE 0 IN m(0) + m(1) + m(2) + m(3) + m(4)
 
 IsNatural(lw, cw) == lw = "C++" /\ cw = ""
 
